@@ -85,6 +85,8 @@ def value_for(row, rnd, size):
         if row['fmt'].startswith('N8'):
             if size == 'min':
                 return datetime.datetime(y, m, dd, rnd.randrange(1, 24), 0), None     # N8: yymmddhh
+            if size == 'mid':       # a full hour with seconds: the minutes are 00 in the middle of the value, not at its end
+                return datetime.datetime(y, m, dd, rnd.randrange(24), 0, rnd.randrange(1, 60)), None
             return datetime.datetime(y, m, dd, rnd.randrange(24), rnd.randrange(1, 60), rnd.randrange(1, 60)), None
         return datetime.date(y, m, dd), None
     # str
